@@ -15,13 +15,22 @@ of the picked rows -/
 theorem rows_in_span_of_resid_zero {m : ℕ} (rows : Nat → Fin m → ℚ) (picks : List Nat) (a : Nat)
     (h : mgsResid rows picks a = 0) :
     rows a ∈ Submodule.span ℚ (Set.range fun i : Fin picks.length => rows picks[i]) := by
-  sorry
+  have := mgsResid_sub_mem_span rows picks a
+  rwa [h, sub_zero] at this
 
 /-- the span of all `n` sensor rows has dimension at most the number of picks once every residual is zero -/
 theorem finrank_rows_le_of_all_resid_zero {m : ℕ} (rows : Nat → Fin m → ℚ) (n : ℕ) (picks : List Nat)
     (h : ∀ a, a < n → mgsResid rows picks a = 0) :
     Module.finrank ℚ (Submodule.span ℚ (Set.range fun a : Fin n => rows a)) ≤ picks.length := by
-  sorry
+  have hle : Submodule.span ℚ (Set.range fun a : Fin n => rows a) ≤
+      Submodule.span ℚ (Set.range fun i : Fin picks.length => rows picks[i]) := by
+    rw [Submodule.span_le, Set.range_subset_iff]
+    intro a
+    exact rows_in_span_of_resid_zero rows picks a (h a a.2)
+  have h1 := Submodule.finrank_mono hle
+  have h2 := finrank_range_le_card (R := ℚ) (fun i : Fin picks.length => rows picks[i])
+  rw [Fintype.card_fin] at h2
+  exact h1.trans h2
 
 /-- **C02 (QR clause, rank link).** If the sensor rows of `B` span a space of dimension `r` (the rank of
 `B`), then each of the first `r` picks of the default (unconstrained, zero-cost) exact run has non-zero
@@ -32,6 +41,15 @@ theorem full_rank_picks_nonzero (B : RMat) (m : Nat) (hB : B.WF B.size m) (r : N
     (hq : (greedyRun (fun _ => 0) noMask B (j + 1)).p[j]? = some q) :
     let picks := (greedyRun (fun _ => 0) noMask B j).p.toList.take j
     mgsResid (B.vec m) picks q ⬝ᵥ mgsResid (B.vec m) picks q ≠ 0 := by
-  sorry
+  intro picks hz
+  have hall := zero_pick_all_zero B m hB j hjn q hq hz
+  have hfin := finrank_rows_le_of_all_resid_zero (B.vec m) B.size picks hall
+  have hlen : picks.length = j := by
+    have hs : (greedyRun (fun _ => 0) noMask B j).p.size = B.size := by
+      unfold greedyRun
+      exact greedyRunFrom_size _ _ _ _ _ _
+    simp only [picks, List.length_take, Array.length_toList, hs]
+    omega
+  omega
 
 end PsVerif
